@@ -2,7 +2,7 @@
 import os, subprocess, re
 import kdf
 
-THEOREMS = []
+THEOREMS = ["Kdf.Props.C06." + t for t in ("inv_flush", "inv_step_partial", "inv_step_weak", "inv_iff_weak", "inv_step_counterexample", "no_ub", "no_ub_weak", "inv_reachable_partial", "inv_reachable_weak", "inv_reachable_counterexample", "busy_iff", "busy_unchanged", "referenced_stable", "cached_stable", "hit_key", "miss_entry")]
 
 
 class Impl:
